@@ -1,30 +1,28 @@
+\* known finding (C06/C03): a blocked RETRY invocation has no edge to CONCURRENCY_CONTROLLED -> the poll raises and strands it (expected counterexample of NoStranded)
 SPECIFICATION Spec
 CONSTANTS
   Inv = {"i1", "i2"}
   Runner = {"r1", "r2"}
   Client = {"c1"}
-  Key <- KeyNone
-  Mode = "disabled"
+  Key <- KeySame
+  Mode = "task"
   RerouteOnCC = TRUE
   MaxRetries = 1
-  Outcome <- AllOk
-  Submissions <- SubDup
-  PollN = 2
+  Outcome <- RetryOk
+  Submissions <- SubMix
+  PollN = 1
   Pollers = {"r1", "r2"}
-  Recoverers = {}
-  Stoppable = {}
+  Recoverers = {"r2"}
+  Stoppable = {"r1"}
   MaxCrashes = 0
   TrackHist = FALSE
   RecoveryAbortsOnLostRace = FALSE
 CONSTRAINT Bounded
 INVARIANT TypeOK
-INVARIANT NoParallelBody
 INVARIANT NoStranded
 INVARIANT SuccessHasResult
 INVARIANT FailedHasException
-INVARIANT OneRunningPerKey
 INVARIANT ChangeLogIsPath
+INVARIANT StoppedLeavesNothing
 PROPERTY CoreFollowsEdge
 PROPERTY CoreFinalAbsorbing
-PROPERTY ClaimsAlternate
-PROPERTY OnlyOwnerMoves
